@@ -34,8 +34,13 @@ fn install_hook() {
         let loc = info
             .location()
             .map(|l| {
+                // crate-relative path: independent of where the tree under test is checked out
                 let f = l.file();
-                let f = f.strip_prefix("/repo/").unwrap_or(f);
+                let f = ["font-types/", "read-fonts/", "write-fonts/", "skrifa/", "klippa/", "incremental-font-transfer/", "shared-brotli-patch-decoder/"]
+                    .iter()
+                    .filter_map(|c| f.find(&format!("/{c}")).map(|i| &f[i + 1..]))
+                    .next()
+                    .unwrap_or(f);
                 format!("{}:{}", f, l.line())
             })
             .unwrap_or_else(|| "?".into());
